@@ -40,13 +40,21 @@ def main(chk):
     import partitura.score as score
     rng = random.Random(chk.seed)
     wd = tlc.workdir("c19/files")
+    # ================= the two machines themselves, model checked
+    for module, what in (("KernStreamMC", "every kern document of the bounded alphabet"), ("MeiLayerMC", "every MEI document of the bounded alphabet")):
+        r = tlc.run(module, "%s.%s.cfg" % (module, chk.tier), "c19/mc", workers=16, timeout=3000, expect_violation=True, heap="6g")
+        chk.add_mc("%s (%s)" % (module, what), r)
+        if r.violated:
+            chk.machinery("%s violates its own invariant %s\n%s" % (module, r.violated, r.error_trace[:1500]))
+            return
     # ================= kern
     ndoc = 120 if chk.tier == "quick" else 2500
     docs, ctx = [], {}
     for cid in range(1, ndoc + 1):
         level = rng.choice([0, 1, 2])
         d, text, meta = gen_kern.make_doc(rng, chords=level >= 1, ties="notes" if level < 2 else "chords", grace=level >= 1,
-                                          meter_change=level >= 1, pickup=level >= 1, same_part=level >= 1 and rng.random() < 0.25)
+                                          meter_change=level >= 1, pickup=level >= 1, same_part=level >= 1 and rng.random() < 0.25,
+                                          splits=level >= 1 and rng.random() < 0.4)
         d["cid"] = cid
         docs.append(d)
         ctx[cid] = (text, meta, level)
@@ -69,7 +77,7 @@ def main(chk):
             return
         for j in uniq(r.json_lines()):
             den[j["cid"]] = j
-    feats = {"same_part": 0, "pickup": 0, "meter_change": 0, "grace": 0, "ties": 0, "chords": 0, "triplets": 0}
+    feats = {"spine_split": 0, "same_part": 0, "pickup": 0, "meter_change": 0, "grace": 0, "ties": 0, "chords": 0, "triplets": 0}
     for cid in range(1, ndoc + 1):
         text, meta, level = ctx[cid]
         out = den.get(cid)
@@ -83,6 +91,7 @@ def main(chk):
         chk.nontrivial(("kern", cid))
         feats["pickup"] += meta["pickup"]
         feats["same_part"] += meta["same_part"]
+        feats["spine_split"] += meta["split"]
         feats["meter_change"] += meta["meter_change"]
         feats["grace"] += any(s["grace"] for s in out["sounding"])
         feats["chords"] += " " in text.replace("\t", "|").split("=")[0] or any(" " in ln for ln in text.split("\n"))
@@ -94,7 +103,7 @@ def main(chk):
         chord_tie = any(("[" in tok or "]" in tok or "_" in tok) and " " in tok for ln in text.split("\n") for tok in ln.split("\t"))
 
         def report(clause, detail, **attrs):
-            chk.violation("s2c", "kern." + clause, dict(cid=cid, **detail), replay={"kern": text}, op="kern", tie_on_a_chord=chord_tie, **attrs)
+            chk.violation("s2c", "kern." + clause, dict(cid=cid, **detail), replay={"kern": text}, op="kern", tie_on_a_chord=chord_tie, spine_split=meta["split"], **attrs)
         try:
             sc = partitura.load_score(fn) if cid % 2 else partitura.load_kern(fn)
         except Exception as ex:
